@@ -60,3 +60,5 @@ pub fn run_lines(mut f: impl FnMut(&[&str]) -> String) {
     }
     out.flush().unwrap();
 }
+
+pub mod srvcase;
